@@ -1127,7 +1127,56 @@ def _replay_case(ctx, case):
         shutil.rmtree(tmp, ignore_errors=True)
 
 
+def witness_rawtag():
+    """C05-RAWTAG: a raw-appended .vtu whose UInt8 point field contains the bytes `</AppendedData>`.
+    Self-contained (no driver): header = UInt32 byte count, little endian, header and data in one stream.
+    The same body is given in NOTES_C05.md for corpus/witnesses.py."""
+    from fieldcompare.io import read_field_data
+
+    def raw(arr):
+        b = arr.tobytes()
+        return struct.pack("<I", len(b)) + b
+
+    payload = np.frombuffer(b"ab</AppendedData>c", dtype=np.uint8)
+    n = len(payload)
+    pts = np.zeros((n, 3), dtype=np.float32)
+    pts[:, 0] = np.arange(n)
+    parts = [raw(payload), raw(pts), raw(np.array([0, 1], dtype=np.int32)), raw(np.array([2], dtype=np.int32)),
+             raw(np.array([3], dtype=np.uint8))]
+    offs = [0]
+    for p_ in parts:
+        offs.append(offs[-1] + len(p_))
+    head = f"""<?xml version="1.0"?>
+<VTKFile type="UnstructuredGrid" version="1.0" byte_order="LittleEndian" header_type="UInt32">
+<UnstructuredGrid><Piece NumberOfPoints="{n}" NumberOfCells="1">
+<PointData><DataArray type="UInt8" Name="p" format="appended" offset="{offs[0]}"/></PointData>
+<CellData></CellData>
+<Points><DataArray type="Float32" NumberOfComponents="3" format="appended" offset="{offs[1]}"/></Points>
+<Cells>
+<DataArray type="Int32" Name="connectivity" format="appended" offset="{offs[2]}"/>
+<DataArray type="Int32" Name="offsets" format="appended" offset="{offs[3]}"/>
+<DataArray type="UInt8" Name="types" format="appended" offset="{offs[4]}"/>
+</Cells></Piece></UnstructuredGrid>
+<AppendedData encoding="raw">
+_""".encode()
+    d = tempfile.mkdtemp(prefix="fcv_w_")
+    path = os.path.join(d, "w.vtu")
+    try:
+        with open(path, "wb") as fh:
+            fh.write(head + b"".join(parts) + b"\n</AppendedData>\n</VTKFile>\n")
+        try:
+            f = read_field_data(path)
+            vals = {fl.name: np.asarray(fl.values).tobytes() for fl in f.point_fields}
+            return vals != {"p": payload.tobytes()}, f"point fields read: {vals}"
+        except Exception as e:  # noqa: BLE001
+            return True, f"read raised {type(e).__name__}: {e}"
+    finally:
+        shutil.rmtree(d, ignore_errors=True)
+
+
 def replay_witness(ctx, entry):
+    if entry.get("class") == "C05-RAWTAG":
+        return witness_rawtag()
     return core.run_named_witness(entry)
 
 
